@@ -46,7 +46,8 @@ reg('C09', 'fault_enumeration',
 
 reg('C11', 'exploration',
     'runtime monitor: every finalisation history (close / with-exit, nested real with-blocks) played on real writers; file snapshots after each finalisation compared, then read back',
-    'All finalisation histories of length 1..4 (quick) / 1..6 (thorough) over {close(), context-manager exit} x {VbsWriter, '
+    'All finalisation histories of length 1..4 (quick) / 1..5 (thorough; plus every length-6 history of the first two) over {close(), '
+    'context-manager exit, context-manager exit through an exception} x {VbsWriter, '
     'IpmWriter} x {VBS, 1014} x {BytesIO, real file} x 7 record sets are enumerated. The file after the whole history must '
     'equal the file after the first finalisation and read back, by the real and by the reference reader, as the records '
     'written. Exhaustive up to the history bound; held on the executions produced.',
@@ -100,7 +101,7 @@ reg('C12', 'exploration',
     'Boundary sweep enumerated completely in both tiers (first value length 940..992 x second 0..60 x third absent/0/1/30: the '
     'running carrier length crosses 985..1005 at every position), exact 999 fills, zero-length values, digit-only values that '
     'look like headers, sets needing exactly 1..5 carriers, seeded sets of up to 60 tags in shuffled insertion order, generated '
-    'configurations with other carrier bits, latin_1 and EBCDIC. Held on the executions produced.',
+    'configurations with other carrier bits and shuffled key order, latin_1 and EBCDIC. Held on the executions produced.',
     'Trusts vmon/ref/codec.py (pack_pds, lenient decoder). PDS sets exceeding the configured carriers are outside the statement.')
 
 reg('C16', 'exploration',
@@ -115,7 +116,8 @@ reg('C16', 'exploration',
 reg('C17', 'exploration',
     'runtime monitor: real ipm_info observed on files written by the real IpmWriter with every block count 1..12 and 50+, six codecs, both formats; invalid-input classes enumerated at their boundaries',
     'Message lists are sized so blocked files have exactly 1,2,...,12 blocks (each enumerated) and 50/53/64, first record small, '
-    'large and spanning the first block boundary, MTI digits varied, x {latin_1, ascii, cp1252, cp500, cp037, cp1140} x {VBS, '
+    'large, spanning the first block boundary, longer than the 2 500-byte sample, and a shape with 0x40-character text everywhere '
+    'except under offset 1012; MTI digits varied, x {latin_1, ascii, cp1252, cp500, cp037, cp1140} x {VBS, '
     '1014}. Invalid classes: every length 0..23, the 24-byte header, first length max / max+1, every bit 2..128 alone in the '
     'first bitmap. Unblocked files with 0x40 0x40 at bytes 1012-1013 are not judged on the blocking answer.',
     'Files come from the real IpmWriter under the packaged configuration; vmon/ref/codec.py is used only to size them.')
@@ -126,7 +128,8 @@ reg('C07', 'fault_enumeration',
     'generated configuration: every structural byte (bitmap, length prefixes, PDS tags and sub-lengths, TLV tags and lengths) x '
     'all 256 values, every length field rewritten to negative / zero / at-over-far-over spellings, truncation at every offset, '
     'seeded multi-point mutation, random byte strings; the same at file level (record prefixes, block trailers, terminator, '
-    'embedded message faults) through both readers and both extraction tools in-process. Non-termination is decided as bounded '
+    'embedded message faults) through both readers and both extraction tools in-process, and the two extraction commands as real '
+    'processes (no traceback on stderr). Non-termination is decided as bounded '
     'progress (20 000 + 100 executed cardutil lines per input byte), not wall-clock.',
     'Bounded progress stands in for termination (worst legitimate path measured < 10 lines/byte). vmon/ref/codec.py lays out the bases. '
     'A hang inside C code that emits no line events would only trip the per-shard wall-clock watchdog (inconclusive).')
@@ -183,7 +186,8 @@ reg('C20', 'exploration',
     'runtime monitor: generated CSV tables pushed through the real mci_csv_to_ipm and mci_ipm_to_csv (function and cli_run entry points); every supplied cell compared with the output cell',
     '1 200 (quick) / 20 000 (thorough) tables of 1..50 (thorough ..400) rows over every supplied column of the configured output '
     'list (MTI, 28 data elements, 6 PDS columns): all columns, subsets, PDS only, PDS with other elements, cells with commas, '
-    'quotes, leading/trailing/only spaces, 0 and maximum numbers, dates across the two-digit-year window (plus a class of '
+    'quotes, leading/trailing/only spaces, 0 and maximum numbers, PDS cells whose packed length crosses the 999-character carrier '
+    'boundary, dates across the two-digit-year window (plus a class of '
     'non-canonical date spellings compared after normalisation) x {latin_1, cp500, cp037} x {blocked, unblocked}.',
     'Trusts the csv module. Derived/output-only columns, DE48 together with PDS columns, and cells with line breaks or control '
     'characters are outside the statement.')
